@@ -94,7 +94,45 @@ func VH_C17_shape() {
 	changed := func(err error) bool {
 		return errors.Is(err, ErrStructureChanged)
 	}
-	switch vChoice("variant", 3) {
+	switch vChoice("variant", 8) {
+	case 3: // only the width of an indexed numeric field changed
+		type vGuard struct {
+			Item
+			A int32  `sod:"index"`
+			B string `sod:"index"`
+		}
+		vhGuardOps(db, func() Object { return &vGuard{} }, uuid, changed, "C17.narrowed")
+	case 4: // only the signedness changed
+		type vGuard struct {
+			Item
+			A uint64 `sod:"index"`
+			B string `sod:"index"`
+		}
+		vhGuardOps(db, func() Object { return &vGuard{} }, uuid, changed, "C17.unsigned")
+	case 5: // a field moved into a nested struct (path B -> N.B)
+		type vGuardN struct {
+			B string `sod:"index"`
+		}
+		type vGuard struct {
+			Item
+			A int64 `sod:"index"`
+			N vGuardN
+		}
+		vhGuardOps(db, func() Object { return &vGuard{} }, uuid, changed, "C17.nested")
+	case 6: // a value field became a pointer field
+		type vGuard struct {
+			Item
+			A int64 `sod:"index"`
+			B *string
+		}
+		vhGuardOps(db, func() Object { return &vGuard{} }, uuid, changed, "C17.pointer")
+	case 7: // an integer became a float
+		type vGuard struct {
+			Item
+			A float64 `sod:"index"`
+			B string  `sod:"index"`
+		}
+		vhGuardOps(db, func() Object { return &vGuard{} }, uuid, changed, "C17.float")
 	case 0: // field added
 		type vGuard struct {
 			Item
